@@ -46,8 +46,8 @@ func init() {
 	gens["C15"] = simple(genC15, 600, 15000)
 	gens["C18"] = simple(genC18, 400, 10000)
 	gens["C10"] = func(m *M, pick func(q, t int) int, shards int) {
-		perFile(m, pick(150, 3000)*42, shards)
-		genC10(m, pick(150, 3000), 40)
+		perFile(m, pick(100, 3000)*42, shards)
+		genC10(m, pick(100, 3000), 40)
 	}
 }
 
